@@ -85,6 +85,12 @@ def cases():
         dict(kind='rule', dirs=['export'], name='S', body=choice(seq(('opt', choice(seq(lit('\ufeff')))), F('w', 'W'), ('eoi',)))),
         dict(kind='rule', dirs=['string', 'position'], name='W', body=choice(seq(('plus', choice(seq(('range', C('a'), C('z'))))))))],
         inputs=[('S', '\ufeffab'), ('S', 'ab'), ('S', '\ufeff'), ('S', '\ufeffab1'), ('S', ' \ufeffab')]))
+    # seeded change C14_m3 (missed again after the generator's random stream shifted): every check of a @char rule counts
+    out.append(dict(id='corpusS14', tags=['corpus', 'hooks'], rules=[
+        dict(kind='rule', dirs=['export'], name='S', body=choice(seq(('star', choice(seq(F('v', 'V')))), ('star', choice(seq(F('o', 'O')))), ('eoi',)))),
+        dict(kind='char', checks=[['hooks', 'cc_ascii'], ['hooks', 'cc_vowel']], name='V', parts=[('range', C('a'), C('z')), ('chr', C('\u00e9'))]),
+        dict(kind='char', checks=[['hooks', 'cc_not_x'], ['hooks', 'cc_ascii'], ['hooks', 'cc_vowel']], name='O', parts=[('id', 'char')])],
+        inputs=[('S', w) for w in ['a', 'b', 'ae', 'ab', '\u00e9', 'x', 'aex', 'ee\u00e9', 'q']]))
     # seeded change C12_m1 (once missed): every @check of a rule is called
     out.append(dict(id='corpusS12', tags=['corpus', 'hooks'], rules=[
         dict(kind='rule', dirs=['export'], name='S', body=choice(seq(('star', choice(seq(F('w', 'W')))), ('eoi',)))),
